@@ -301,7 +301,13 @@ def exec_ops(case, ops, op_timeout=60, emit=None):
                     rec["status"] = "returned"
                     rec["state"] = _design_state(built, case)
                 elif kind == "mismatch":
-                    cand = ir.decode_sequence(case, op["rows"]) if "rows" in op else dict(last_exps[op.get("i", 0)])
+                    if "rows" in op:
+                        cand = ir.decode_sequence(case, op["rows"])
+                    elif last_exps:
+                        cand = dict(last_exps[op.get("i", 0)])
+                    else:       # nothing synthesized yet: any well-formed candidate
+                        T = built.block.trials_per_sample()
+                        cand = {f.name: [f.levels[0].name] * T for f in built.block.design if isinstance(f.name, str)}
                     with ir.quiet():
                         r = sp.sample_mismatch_experiment(built.block, cand)
                     signal.alarm(0)
